@@ -40,7 +40,7 @@ namespace occa {
       verif::yield(verif::ptBeforeBytes);
 #endif
       if (!isWrapped) {
-        modeDevice->bytesAllocated -= size;
+        modeDevice->addBytesAllocated(-((dim_t) size));
       }
 #ifdef LIBOCCA_OCCA_VERIF
       verif::yield(verif::ptAfterBytes);
